@@ -775,3 +775,22 @@ Definition bytes_range (len start fin : Z) : rd (list Z) :=
     run is reported as [Err]/[Ok] by them, the model says [Ok []]. *)
 Definition decrypt_frame (has_pw : bool) (data : list Z) : rd (list Z) :=
   if has_pw then (if has_len data 12 then ret [] else panic) else ret [].
+
+(** parsePrivateKey (behind DecryptPrivKey) and ReadPubKey: the loop over the
+    PEM blocks of the file.  [decode] stands for encoding/pem.Decode (third
+    party): [None] = no further block, [Some (is_certificate, rest)].
+    CERTIFICATE blocks are skipped ([raw = rest]); any other block ends the loop
+    (the x509 parsers return a key or an error: [Ok true]); running out of
+    blocks is the "failed to parse" error.  Not part of the correspondence check
+    (pem.Decode is not modelled); the harness feeds multi-block PEM files to the
+    real functions under the oracle's deadline. *)
+Fixpoint pem_loop (decode : list Z -> option (bool * list Z)) (fuel : nat) (raw : list Z) : outcome bool :=
+  match fuel with
+  | O => OutOfFuel
+  | S f =>
+      match decode raw with
+      | None => Err E_OTHER
+      | Some (true, rest) => pem_loop decode f rest
+      | Some (false, _) => Ok true
+      end
+  end.
